@@ -39,6 +39,7 @@ SPEC = {
     'writes that would replace a sub-dict by a leaf (put_variable onto a submodule name) are outside the model (error `unsupported`) and not generated',
     'observe_noninterference is stated for the Linen styles (Module.sow does not exist in the functional core) and for programs whose observation collections are used by nothing else (theorem obs_safe_needed shows the guard is needed)',
     'RNG values are not modelled (initialisers are constants); key reuse/position is C09',
+    'nested functional calls: the model\'s `nested` form applies a detached sub-network (nested_apply_capture_isolated, nested_apply_store_untouched); a functional call on an ALREADY BOUND submodule (self.child.apply(vars, x) / foo.bind(V).child.apply(...)), whose isolation rests on Module.clone\'s deep clone, is checked on the implementation against the stand-alone call (bound-nested family) and by clone_preserves_sharing in C02\'s clone-cache model',
     'Scope.temporary invalidates the ROOT scope object only (code as written, theorem leaked_child_still_writes): a leaked child Scope stays usable and can update the temporary tree — which is also the dict apply returned — after the call; what is proved and checked is that the root is dead (leaked_scope_invalid) and that no leaked scope, valid or not, reaches the caller\'s variables (leaked_scope_cannot_touch_inputs)',
   ],
   'model_partial': [],
@@ -385,6 +386,9 @@ def run_case(ctx, drv, conv, case):
   if sc.get('kind') == 'return-shape':
     return_shape_case(ctx, sc)
     return
+  if sc.get('kind') == 'bound-nested':
+    S.check_bound_nested(ctx, sc)
+    return
   if sc.get('leak'):
     leak_suite(ctx, drv, conv, [sc])
     return
@@ -422,6 +426,9 @@ def run(ctx):
   restore = [S.gen_restore_prog(ctx.rng) for _ in range(50 if not thorough else 600)]
   ctx.count('streams', 'restore', len(restore))
   run_programs(ctx, drv, conv, restore)
+  # functional calls on an already bound submodule (depth >= 2, dataclass-field submodules, counters)
+  for _ in range(40 if not thorough else 500):
+    S.check_bound_nested(ctx, S.gen_bound_nested(ctx.rng))
   # return shape of every entry point for every kind of filter (incl. falsy-but-not-False ones), output a scalar or a pair
   return_shape_suite(ctx, 30 if not thorough else 400)
   # nested applies inside a module body, under every outer capture setting
